@@ -96,6 +96,9 @@ pub struct Plan {
     /// size of the i-th reply is padded (with a comment after <data>) to reply_pad[i % len] bytes;
     /// empty = small replies
     pub reply_pad: Vec<usize>,
+    /// send attempts (1.. = the rpcs) that fail although the request reached the server, which
+    /// answers it like any other: the session goes on being used
+    pub fail_after_write: Vec<usize>,
 }
 
 impl Plan {
@@ -106,7 +109,7 @@ impl Plan {
         json!({
             "first": self.first.iter().map(|p| format!("{p:?}")).collect::<Vec<_>>(),
             "late": self.late, "block_sends": self.block_sends, "block_after_write": self.block_after_write, "yield_between": self.yield_between,
-            "hello_preloaded": self.hello_preloaded, "extra": self.extra.len(), "drops": self.drops, "reply_pad": self.reply_pad,
+            "hello_preloaded": self.hello_preloaded, "extra": self.extra.len(), "drops": self.drops, "reply_pad": self.reply_pad, "fail_after_write": self.fail_after_write,
         })
     }
 }
@@ -301,6 +304,7 @@ pub fn run(
         let mut st = wire.lock();
         st.block_sends = plan.block_sends.iter().copied().collect();
         st.block_after_write = plan.block_after_write.iter().copied().collect();
+        st.fail_after_write = plan.fail_after_write.iter().copied().collect();
         if plan.hello_preloaded {
             st.inbox.push_back(plan.hello.clone());
         }
